@@ -18,6 +18,7 @@ M = {
         ("writer-index-off-by-one-in-emission", "src/aset.rs", "let index = i * 32 + j + 1;", "let index = if i == 7 && j == 31 { i * 32 + j } else { i * 32 + j + 1 };"),
         ("writer-empty-group-not-omitted", "src/aset.rs", "if *flag != 0 {\n                    writer.write_u32(*flag)?;", "if *flag != 0 || i == 5 {\n                    writer.write_u32(*flag)?;"),
         ("writer-alloc-one-word-more", "src/aset.rs", "(flags_to_write + strings_to_write + 1) * 4", "(flags_to_write + strings_to_write + 1 + (strings_to_write == 3) as usize) * 4"),
+        ("writer-missing-slot-counted-present", "src/aset.rs", ".map(|entry| entry.is_some())\n                        .unwrap_or_default();", ".map(|entry| entry.is_some())\n                        .unwrap_or(index == 40);"),
         ("writer-empty-label-dropped", "src/aset.rs", "if let Some(label) = &set[0] {\n                writer.write_label(label)?;", "if let Some(label) = &set[0] {\n                if !label.is_empty() { writer.write_label(label)?; }"),
     ],
     "C18": [
